@@ -535,3 +535,25 @@ def ids_mixed_shallow():
 ALL["ids_mixed_none"] = ids_mixed_none
 ALL["ids_mixed_always"] = ids_mixed_always
 ALL["ids_mixed_shallow"] = ids_mixed_shallow
+
+
+def defer_cond():
+    """backmp11: deferral by several active states at once (orthogonal regions, sub-machine state + active sub-state),
+    some of them conditional (is_event_deferred decided per op by the plan)"""
+    return {
+        "name": "defer_cond",
+        "events": ["E0", "E1", "E2", "E3"],
+        "machines": [
+            {"name": "Top", "regions": [["Busy", "Idle", "S"], ["Thr", "Open"]], "kinds": {"S": "sub:Sub"},
+             "rows": ["Busy + E0 / a0 -> Idle", "Idle + E0 / a1 -> S", "S + E0 [g0] / a2 -> Busy", "Idle + E1 / a3", "Idle + E2 / a4 -> Busy",
+                      "Thr + E3 / a5 -> Open", "Open + E3 / a6 -> Thr", "Open + E1 / a7", "Thr + E2 [g1] / a8"],
+             "state": {"Busy": {"deferred": ["E1", "E2"]}, "Thr": {"deferred": ["E1"], "cond_defer": 0},
+                       "S": {"deferred": ["E2"], "cond_defer": 1}}},
+            {"name": "Sub", "regions": [["P", "Q"]],
+             "rows": ["P + E1 / a9 -> Q", "Q + E1 / a10 -> P", "Q + E2 / a11", "P + E3 [g2] / a12"],
+             "state": {"P": {"deferred": ["E2"], "cond_defer": 2}, "Q": {"deferred": ["E3"]}}},
+        ],
+    }
+
+
+ALL["defer_cond"] = defer_cond
